@@ -19,8 +19,8 @@ InScope(c) == /\ c.genErr = "" /\ c.ran
               /\ Reduced(c)
               /\ \A i, j \in 1..NIn(c) : i # j => c.inputs[i].nt # c.inputs[j].nt
 
-VARIABLES ci, ent, w, lexr, chart, dead, acc, conf
-vars == <<ci, ent, w, lexr, chart, dead, acc, conf>>
+VARIABLES ci, ent, w, lexr, chart, dead, acc, conf, den
+vars == <<ci, ent, w, lexr, chart, dead, acc, conf, den>>
 
 C == Cases[ci]
 Start(c, e) == c.inputs[e].nt
@@ -33,7 +33,8 @@ Init == /\ ci \in 1..Len(Cases)
                 /\ chart = ch
                 /\ acc = EarleyAccepts(ch)
                 /\ conf = Conflated(c, Analyse(c))
-           ELSE chart = <<>> /\ acc = FALSE /\ conf = FALSE
+                /\ den = IF c.cfg.events /\ c.inputs[ent].eoi THEN Den(c, c.L)[Start(c, ent)] ELSE {}
+           ELSE chart = <<>> /\ acc = FALSE /\ conf = FALSE /\ den = {}
 
 Extend(t) ==
   /\ InScope(C) /\ Len(w) < C.L
@@ -44,7 +45,7 @@ Extend(t) ==
           /\ chart' = ch
           /\ dead' = IF ch[Len(ch)] = {} THEN Len(w) ELSE -1
           /\ acc' = (acc \/ EarleyAccepts(ch))
-  /\ UNCHANGED <<ci, ent, conf>>
+  /\ UNCHANGED <<ci, ent, conf, den>>
 Next == \E k \in 1..Len(C.alph) : Extend(C.alph[k])
 Spec == Init /\ [][Next]_vars
 
@@ -59,6 +60,15 @@ Expected ==
   ELSE IF acc THEN Accept                                   \* begins with a sentence
        ELSE IF dead >= 0 THEN ErrAt(dead) ELSE ErrAt(Len(w))
 
+(* C02: on a sentence of an eoi input the listener sees exactly the post-order list of the rules of the unique
+   derivation, each with the range the documented rule assigns.  Rule r reports node type R<r>; types are numbered
+   1.. in name order, so type = r (1-based rule). *)
+RecordedEvents == C.ev[ent][LevelStart(Len(C.alph), Len(w)) + lexr + 1]
+Phrases == { p \in den : p.w = w }
+Flat(ev) == [k \in 1..(3 * Len(ev)) |-> ev[((k - 1) \div 3) + 1][((k - 1) % 3) + 1]]
+EventsConform ==
+  (InScope(C) /\ ~conf /\ C.cfg.events /\ C.inputs[ent].eoi /\ Cardinality(Phrases) = 1) =>
+     RecordedEvents = Flat((CHOOSE p \in Phrases : TRUE).ev)
 (* the generator produced a parser that builds, unless it reported a conflict *)
 Generates == C.genErr = "" \/ C.conflict
 NoCrash == C.ran => Len(C.bad) = 0
